@@ -2,8 +2,11 @@
 # with_revert.sh <commit-ish in /repo> <command...>: temporarily revert one commit in /repo's working tree
 c="$1"; shift
 git -C /repo diff --quiet || { echo "/repo dirty" >&2; exit 3; }
-git -C /repo revert --no-commit "$c" >/dev/null || exit 3
+if ! git -C /repo revert --no-commit "$c" >/dev/null 2>&1; then
+  git -C /repo revert --abort 2>/dev/null; git -C /repo reset -q --hard HEAD
+  echo "revert of $c does not apply cleanly" >&2; exit 3
+fi
 "$@"; rc=$?
-git -C /repo revert --abort 2>/dev/null || git -C /repo reset -q --hard
+git -C /repo revert --abort 2>/dev/null || git -C /repo reset -q --hard HEAD
 git -C /repo checkout -q -- . ; git -C /repo status --short | head
 exit $rc
